@@ -400,7 +400,8 @@ func handleEvent(ctx context.Context, t *Torrent, c peer.TorEvent) error {
 			finalisePiece(t, c.Index)
 		}
 		cpp := t.Pieces.PieceSize() / config.ChunkSize
-		chunks := c.Length / config.ChunkSize
+		// round up: the last block of a torrent may be short
+		chunks := (c.Length + config.ChunkSize - 1) / config.ChunkSize
 		for i := uint32(0); i < chunks; i++ {
 			chunk := c.Index*cpp + c.Begin/config.ChunkSize + i
 			noteInFlight(t, chunk, false)
@@ -422,7 +423,8 @@ func handleEvent(ctx context.Context, t *Torrent, c peer.TorEvent) error {
 			return nil
 		}
 		cpp := t.Pieces.PieceSize() / config.ChunkSize
-		chunks := c.Length / config.ChunkSize
+		// round up: the last block of a torrent may be short
+		chunks := (c.Length + config.ChunkSize - 1) / config.ChunkSize
 		for i := uint32(0); i < chunks; i++ {
 			chunk := c.Index*cpp + c.Begin/config.ChunkSize + i
 			noteInFlight(t, chunk, false)
